@@ -4,6 +4,8 @@ import (
 	"context"
 	"errors"
 	"fmt"
+	"sync"
+	"time"
 
 	"github.com/jrhy/mast"
 	s3persist "github.com/jrhy/mast/persist/s3"
@@ -424,6 +426,77 @@ func runC03(c C03Case, o *run.Obs) error {
 				o.Label("two-library-in-memory-stores-one-cache")
 			} else {
 				o.Label("two-s3-stores-one-cache")
+			}
+		}
+	}
+	if c.TwoStores && len(cw.t.Model) > 0 {
+		// twin flushes: two clones get the same changes (hence identical unsaved nodes) and are persisted at the same
+		// time into the same store; the FIRST write of one of the shared new nodes to arrive is held until the other
+		// flush's write of that node arrives too (or a moment has passed) and then fails. Whichever MakeRoot reports
+		// success must have a complete version in the store.
+		t1, e1 := w.Clone(cw.t)
+		t2, e2 := w.Clone(cw.t)
+		if e1 == nil && e2 == nil {
+			ok := true
+			for _, t := range []*core.Tree{t1, t2} {
+				for j := 0; j < 3 && ok; j++ {
+					if ki, found := core.AbsentKey(t.Model, len(w.Pool), len(c.Base)*3+j*5); found {
+						ok = w.Insert(t, ki, j+1) == nil
+					}
+				}
+				if pk, found := core.PresentKey(t.Model, len(c.Base)); found && ok {
+					ok = w.Insert(t, pk, t.Model[pk]+1) == nil
+				}
+			}
+			if ok {
+				var mu sync.Mutex
+				seen := map[string]int{}
+				victim := ""
+				second := make(chan struct{})
+				nth := len(c.Base) % 3
+				cw.gate.Arm(nil)
+				cw.gate.NameHook = func(name string) bool {
+					mu.Lock()
+					seen[name]++
+					if victim == "" && len(seen) == nth+1 && seen[name] == 1 {
+						victim = name
+						mu.Unlock()
+						select {
+						case <-second:
+						case <-time.After(20 * time.Millisecond):
+						}
+						return true
+					}
+					if name == victim && seen[name] == 2 {
+						close(second)
+					}
+					mu.Unlock()
+					return false
+				}
+				type res struct {
+					root *mast.Root
+					err  error
+				}
+				out := make([]res, 2)
+				var wg sync.WaitGroup
+				for i, t := range []*core.Tree{t1, t2} {
+					wg.Add(1)
+					go func(i int, t *core.Tree) {
+						defer wg.Done()
+						_ = core.Safely("MakeRoot", func() error { out[i].root, out[i].err = t.M.MakeRoot(core.Ctx); return nil })
+					}(i, t)
+				}
+				wg.Wait()
+				cw.gate.NameHook = nil
+				for i, t := range []*core.Tree{t1, t2} {
+					if out[i].err == nil && out[i].root != nil {
+						cwt := &c03World{w: w, t: t}
+						if err := cwt.complete(out[i].root, w.Store, fmt.Sprintf("[%s] two clones with identical unsaved nodes persisted concurrently, the first write of one shared new node failed: MakeRoot #%d", c.Cfg, i+1)); err != nil {
+							return err
+						}
+					}
+				}
+				o.Label("twin-flushes-with-one-failing-write")
 			}
 		}
 	}
